@@ -158,6 +158,16 @@ def r2(cx):
             r = cfg.after(same_edge, blocked_nodes={x for x in cfg.reach(( te if c.op == "Ne" else fe)[2]) if False})
             for t in clos_body.calls("=fcntl"):
                 if t.bb in r and len(t.args) >= 3 and t.args[1].is_const and t.args[1].cint() == 2: handled = True     # F_SETFD == 2
+    if not handled:
+        # `match fd { 3 => fcntl(..), _ => dup2(..) }`: an integer switch with the value 3 among its targets
+        for b in clos_body.blocks:
+            t = b.term
+            if b.cleanup or t.kind != "switch": continue
+            for v, dst in t.targets:
+                if v == 3 and len(t.targets) >= 1 and dst != t.otherwise:
+                    r = cfg.after((b.idx, 3, dst))
+                    for x in clos_body.calls("=fcntl"):
+                        if x.bb in r and len(x.args) >= 3 and x.args[1].is_const and x.args[1].cint() == 2: handled = True
     cx.check(handled, "C16.R2", "varlink:varlink_exec:fd3-cloexec", clos_body.sp,
              "when the listener already is descriptor 3 nothing clears its close-on-exec flag: the activated service starts without its socket",
              note_ok="fd == 3: fcntl(F_SETFD, 0)")
